@@ -5,9 +5,11 @@ import FxVerif.Model.C17Float
 import FxVerif.Model.C17Sort
 import FxVerif.Model.C17Ack
 import FxVerif.Model.C17Cache
+import FxVerif.Model.C17Hist
 import FxVerif.Proofs.C17
 import FxVerif.Proofs.C17Ack
 import FxVerif.Proofs.C17Cache
+import FxVerif.Proofs.C17Hist
 import FxVerif.Proofs.C17Float
 import FxVerif.Proofs.C17Sort
 /-!
@@ -35,6 +37,15 @@ with the check after the inner call (`ack_unchecked_schedule_dependent`, `ack_ch
 (i) caches of STATE-DERIVED data: the node theorem for invariants relating memory and state, with the hypothesis about discarded
 executions explicit (`coherent_cache_process_history_irrelevant`); the write-through cache of the seeded shape is invisible exactly
 as long as nothing it executed is discarded (`writeThrough_cache_invisible_without_discards`, `writeThrough_cache_breaks_determinism`).
+(j) reads at ANOTHER HEIGHT: an archive node also executes reads on discarded branches of OLDER versions; the node theorem for
+invariants relating memory and the latest state with the hypothesis about such reads explicit
+(`versioned_coherent_cache_process_history_irrelevant`); the REGENERATED read-path programs of the keepers touch no process memory
+(`reader_programs_memory_free`), an interpreted program without memory steps is a function of the context's store
+(`memFree_programs_process_history_irrelevant`, `switch_params_source_process_history_irrelevant` for the regenerated programs of
+`GetSwitchParams` / `SetSwitchParams`); the unkeyed read-through cache of the seeded shape is what the interpreter makes of the
+cached programs (`cached_programs_are_read_through`), it is invisible as long as every read is at the latest height
+(`readThrough_cache_invisible_without_foreign_reads`) and visible after a restart followed by a read at an older height
+(`readThrough_historical_read_breaks_determinism`).
 Scheduler-, allocator- and dependency-level nondeterminism is outside the model: validated by repeated-process runs.
 -/
 namespace FxVerif.Props.C17
@@ -796,6 +807,148 @@ theorem writeThrough_cache_invisible_without_discards (evs₁ evs₂ : List (Ev 
   exact ⟨rfl, rfl⟩
 
 
+/-! ## (j) reads at another height; the regenerated read-path programs of the keepers -/
+
+/-- obligation over the regenerated read / write paths of the keepers: no step reads or writes process memory -/
+theorem reader_programs_memory_free : readerProgs.all readerCovered = true := by decide
+
+/-- the archive-node theorem: state and delivered outputs depend on the block history only — not on restarts, state syncs,
+served executions at the latest height or reads at ANY older height — whenever an invariant relating memory and the LATEST state
+is established by construction for every state, kept by delivered transactions with the new state, kept with the latest state by
+every execution whose effect is discarded, on whatever state it ran (`hforeign`; `s' = s` is the round-4 hypothesis about served
+executions), and state effect and output do not depend on the memory under it -/
+theorem versioned_coherent_cache_process_history_irrelevant {M S I O : Type} (h : Handler M S I O) (m₀ : M) (Inv : M → S → Prop)
+    (hinit : ∀ s, Inv m₀ s)
+    (hdel : ∀ m s i, Inv m s → Inv (h m s i).1 (h m s i).2.1)
+    (hforeign : ∀ m s s' i, Inv m s → Inv (h m s' i).1 s)
+    (hindep : ∀ m m' s i, Inv m s → Inv m' s → (h m s i).2 = (h m' s i).2)
+    (evs₁ evs₂ : List (VEv I)) (hb : blocksOfV evs₁ = blocksOfV evs₂) (n₁ n₂ : VNode M S) (hs : n₁.st = n₂.st)
+    (h₁ : Inv n₁.mem n₁.st) (h₂ : Inv n₂.mem n₂.st) :
+    (runV h m₀ n₁ evs₁).1.st = (runV h m₀ n₂ evs₂).1.st ∧ (runV h m₀ n₁ evs₁).2 = (runV h m₀ n₂ evs₂).2 := by
+  have r₁ := FxVerif.Proofs.C17.runV_eq_pure_on h m₀ Inv (fun _ => True) hinit (fun m s i _ => hdel m s i)
+    (fun m s i _ => hforeign m s s i) (fun m s s' _ i _ => hforeign m s s' i) hindep evs₁ n₁ (fun _ _ => trivial) h₁
+  have r₂ := FxVerif.Proofs.C17.runV_eq_pure_on h m₀ Inv (fun _ => True) hinit (fun m s i _ => hdel m s i)
+    (fun m s i _ => hforeign m s s i) (fun m s s' _ i _ => hforeign m s s' i) hindep evs₂ n₂ (fun _ _ => trivial) h₂
+  rw [r₁.1, r₁.2, r₂.1, r₂.2, hb, hs]
+  exact ⟨rfl, rfl⟩
+
+/-- EVERY getter program without memory steps (with any setter program), interpreted: nodes with ANY memories and ANY older versions agree
+on state and outputs for all process histories with equal block histories — including reads at older heights -/
+theorem memFree_programs_process_history_irrelevant (get set : List RStep) (hg : memFree get = true)
+    (evs₁ evs₂ : List (VEv ParMsg)) (hb : blocksOfV evs₁ = blocksOfV evs₂) (n₁ n₂ : VNode (Option Params) ParStore)
+    (hs : n₁.st = n₂.st) :
+    (runV (progHandler get set) none n₁ evs₁).1.st = (runV (progHandler get set) none n₂ evs₂).1.st ∧
+    (runV (progHandler get set) none n₁ evs₁).2 = (runV (progHandler get set) none n₂ evs₂).2 := by
+  have hindep : ∀ (m m' : Option Params) (s : ParStore) (i : ParMsg), (progHandler get set m s i).2 = (progHandler get set m' s i).2 := by
+    intro m m' s i
+    cases i with
+    | update p ok => rfl
+    | use name =>
+      simp only [progHandler]
+      rw [FxVerif.Proofs.C17.runGetter_memFree get hg m s, FxVerif.Proofs.C17.runGetter_memFree get hg m' s]
+  exact versioned_coherent_cache_process_history_irrelevant (progHandler get set) none (fun _ _ => True) (fun _ => trivial)
+    (fun _ _ _ _ => trivial) (fun _ _ _ _ _ => trivial) (fun m m' s i _ _ => hindep m m' s i) evs₁ evs₂ hb n₁ n₂ hs trivial trivial
+
+/-- … in particular the REGENERATED programs of `GetSwitchParams` / `SetSwitchParams` -/
+theorem switch_params_source_process_history_irrelevant (evs₁ evs₂ : List (VEv ParMsg)) (hb : blocksOfV evs₁ = blocksOfV evs₂)
+    (n₁ n₂ : VNode (Option Params) ParStore) (hs : n₁.st = n₂.st) :
+    (runV (progHandler switchGet switchSet) none n₁ evs₁).1.st = (runV (progHandler switchGet switchSet) none n₂ evs₂).1.st ∧
+    (runV (progHandler switchGet switchSet) none n₁ evs₁).2 = (runV (progHandler switchGet switchSet) none n₂ evs₂).2 :=
+  memFree_programs_process_history_irrelevant switchGet switchSet (by decide) evs₁ evs₂ hb n₁ n₂ hs
+
+/-- … and they compute what the cache-free handler computes (the interpretation of the source programs is the code as it is) -/
+theorem switch_params_source_is_noCache (mem : Option Params) (store : ParStore) (m : ParMsg) :
+    progHandler switchGet switchSet mem store m = noCacheParHandler mem store m := by
+  cases m with
+  | update p ok => rfl
+  | use name =>
+    cases store with
+    | none => cases mem <;> rfl
+    | some p => cases mem <;> rfl
+
+/-- the interpreter turns the programs of the seeded change into the unkeyed read-through cache -/
+theorem cached_programs_are_read_through (mem : Option Params) (store : ParStore) (m : ParMsg) :
+    progHandler cachedGet cachedSet mem store m = readThroughHandler mem store m := by
+  cases m with
+  | update p ok => rfl
+  | use name =>
+    cases mem with
+    | some p => rfl
+    | none => cases store <;> rfl
+
+/-- the seeded shape needs BOTH a restart and a read at an older height before the next use: after the parameters changed, a
+restarted node that first answers a query for the old height refuses / admits differently from a node that did not — while a
+restart alone, or the historical read alone (memory already filled), changes nothing -/
+theorem readThrough_historical_read_breaks_determinism :
+    (runV readThroughHandler none ⟨none, none, []⟩ [.deliver (.update ["send"] true), .deliver (.use "send")]).2 ≠
+      (runV readThroughHandler none ⟨none, none, []⟩
+        [.deliver (.update ["send"] true), .restart, .serveAt 0 (.use "x"), .deliver (.use "send")]).2 ∧
+    (runV readThroughHandler none ⟨none, none, []⟩ [.deliver (.update ["send"] true), .deliver (.use "send")]).2 =
+      (runV readThroughHandler none ⟨none, none, []⟩ [.deliver (.update ["send"] true), .restart, .deliver (.use "send")]).2 ∧
+    (runV readThroughHandler none ⟨none, none, []⟩ [.deliver (.update ["send"] true), .deliver (.use "send")]).2 =
+      (runV readThroughHandler none ⟨none, none, []⟩ [.deliver (.update ["send"] true), .serveAt 0 (.use "x"), .deliver (.use "send")]).2 ∧
+    (runV noCacheParHandler none ⟨none, none, []⟩ [.deliver (.update ["send"] true), .deliver (.use "send")]).2 =
+      (runV noCacheParHandler none ⟨none, none, []⟩
+        [.deliver (.update ["send"] true), .restart, .serveAt 0 (.use "x"), .deliver (.use "send")]).2 := by decide
+
+/-- reads at the LATEST height keep the unkeyed cache coherent (hypothesis (3) of the round-4 theorem holds for them — which is why
+replicas that only serve the latest state never see this cache); it is the hypothesis about reads on ANOTHER state that fails -/
+theorem readThrough_violates_exactly_the_foreign_read_hypothesis :
+    (∀ (m : Option Params) (s : ParStore) (name : String), cohP m s → cohP (readThroughHandler m s (.use name)).1 s) ∧
+    ¬ (∀ (m : Option Params) (s s' : ParStore) (i : ParMsg), cohP m s → cohP (readThroughHandler m s' i).1 s) := by
+  constructor
+  · intro m s name hm
+    cases m with
+    | some p => exact hm
+    | none => intro p hp; simp only [readThroughHandler, Option.some.injEq] at hp; exact hp.symm
+  · intro h
+    have := h none (some ["send"]) none (.use "x") (by intro p hp; cases hp) [] rfl
+    simp [paramsOf] at this
+
+/-- on process histories whose every read is at the latest height and whose every executed update is committed, the unkeyed
+read-through cache cannot be observed: nodes with any coherent memories, any older versions and equal block histories agree -/
+theorem readThrough_cache_invisible_without_foreign_reads (evs₁ evs₂ : List (VEv ParMsg))
+    (c₁ : ∀ e ∈ evs₁, latestOnly e = true) (c₂ : ∀ e ∈ evs₂, latestOnly e = true) (hb : blocksOfV evs₁ = blocksOfV evs₂)
+    (n₁ n₂ : VNode (Option Params) ParStore) (hs : n₁.st = n₂.st) (h₁ : cohP n₁.mem n₁.st) (h₂ : cohP n₂.mem n₂.st) :
+    (runV readThroughHandler none n₁ evs₁).1.st = (runV readThroughHandler none n₂ evs₂).1.st ∧
+    (runV readThroughHandler none n₁ evs₁).2 = (runV readThroughHandler none n₂ evs₂).2 := by
+  have hinit : ∀ s : ParStore, cohP none s := by intro s p hp; cases hp
+  have huse : ∀ (m : Option Params) (s : ParStore) (name : String), cohP m s →
+      readThroughHandler m s (.use name) = (some (paramsOf s), s, (paramsOf s).contains name) := by
+    intro m s name hm
+    cases m with
+    | none => rfl
+    | some p => have := hm p rfl; subst this; rfl
+  have hdel : ∀ (m : Option Params) (s : ParStore) (i : ParMsg), latestOnly (.deliver i) = true → cohP m s →
+      cohP (readThroughHandler m s i).1 (readThroughHandler m s i).2.1 := by
+    intro m s i hc hm
+    cases i with
+    | update p ok =>
+      simp only [latestOnly] at hc; subst hc
+      intro q hq; simp only [readThroughHandler, Option.some.injEq] at hq; simp [readThroughHandler, paramsOf, hq]
+    | use name => rw [huse m s name hm]; intro q hq; simp only [Option.some.injEq] at hq; exact hq.symm
+  have hserve : ∀ (m : Option Params) (s : ParStore) (i : ParMsg), latestOnly (.serve i) = true → cohP m s →
+      cohP (readThroughHandler m s i).1 s := by
+    intro m s i hc hm
+    cases i with
+    | update p ok => simp [latestOnly] at hc
+    | use name => rw [huse m s name hm]; intro q hq; simp only [Option.some.injEq] at hq; exact hq.symm
+  have hforeign : ∀ (m : Option Params) (s s' : ParStore) (k : Nat) (i : ParMsg), latestOnly (.serveAt k i) = true → cohP m s →
+      cohP (readThroughHandler m s' i).1 s := by
+    intro m s s' k i hc; simp [latestOnly] at hc
+  have hindep : ∀ (m m' : Option Params) (s : ParStore) (i : ParMsg), cohP m s → cohP m' s →
+      (readThroughHandler m s i).2 = (readThroughHandler m' s i).2 := by
+    intro m m' s i hm hm'
+    cases i with
+    | update p ok => rfl
+    | use name => rw [huse m s name hm, huse m' s name hm']
+  have r₁ := FxVerif.Proofs.C17.runV_eq_pure_on readThroughHandler none cohP (fun e => latestOnly e = true)
+    hinit hdel hserve hforeign hindep evs₁ n₁ c₁ h₁
+  have r₂ := FxVerif.Proofs.C17.runV_eq_pure_on readThroughHandler none cohP (fun e => latestOnly e = true)
+    hinit hdel hserve hforeign hindep evs₂ n₂ c₂ h₂
+  rw [r₁.1, r₁.2, r₂.1, r₂.2, hb, hs]
+  exact ⟨rfl, rfl⟩
+
 -- non-vacuity
 example : committing (.deliver (.register "p" 7 true)) = true ∧ committing (.serve (.register "p" 7 true)) = false ∧
     committing (.deliver (.register "p" 7 false)) = false ∧ committing (.serve (.use "p")) = true := by decide
@@ -834,4 +987,13 @@ example : runAck ackSteps Sched.id ⟨0, 0, 0, 0, 0⟩ 5 ⟨[("result", "AQ==")]
 example : (runEvs (validatedHandler (· + 1)) [] ⟨[], [("p", 7)]⟩ [.serve (.register "p" 9 true), .deliver (.use "p"), .deliver (.use "q")]).2 = [some 8, none] := by decide
 example : coherent [("p", 7)] [("p", 7)] := fun _ _ h => h
 
+set_option maxRecDepth 8000 in
+example : readerProgs.length ≥ 100 ∧ (readerProgs.filter (fun r => r.steps.any (fun s => s.kind == "store"))).length ≥ 40 := by decide
+example : switchGet = [.store, .retIfNil, .decode, .ret] ∧ memFree switchGet = true ∧ memFree switchSet = true ∧ memFree cachedGet = false := by decide
+example : switchGetOp (some ["stale"]) (some ["send"]) = ["send"] ∧ switchGetOp none none = [] ∧
+    (runGetter cachedGet (some ["stale"]) (some ["send"])).2 = ["stale"] ∧ (runGetter cachedGet none (some ["send"])) = (some ["send"], ["send"]) := by decide
+example : latestOnly (.deliver (.update ["a"] true)) = true ∧ latestOnly (.serveAt 0 (.use "a")) = false ∧ latestOnly (.serve (.use "a")) = true := by decide
+example : cohP (some ["a"]) (some ["a"]) ∧ cohP none (some ["a"]) := ⟨fun p hp => by cases hp; rfl, fun p hp => by cases hp⟩
+example : (runV (progHandler switchGet switchSet) none ⟨some ["stale"], none, []⟩
+    [.deliver (.update ["send"] true), .restart, .serveAt 0 (.use "x"), .deliver (.use "send"), .sync, .serveAt 0 (.use "y"), .deliver (.use "other")]).2 = [false, true, false] := by decide
 end FxVerif.Props.C17
